@@ -517,3 +517,73 @@ def x6(ctx, rep, rule="X6"):
             rep.add(rule, "table-indexed-container-covers-table:" + key, lb is not None and tmax < lb, b.where(bb),
                     "index is an element of %s (max %d); container length provably >= %s" % (m.group(1), tmax, lb))
     rep.floor(rule, "table-indexed-sites", n, 2)
+
+
+# ---- X8: additions on 8/16-bit values ----------------------------------------------------------------------------------
+NARROW_ROWS = {
+    ("hash_chain::InternalPosition::inc", "Add", "var(self).pos", "K1"):
+        "chain positions are re-based before they reach the limit (C05/X1 reshift-bound: (K-1)+B+1 <= 65535)",
+    ("huffman_helper::calc_huffman_codes", "Add", "var(bl_count)[var(cbit)]", "K1"):
+        "counts code lengths of one alphabet: at most 288 (320) entries",
+    ("huffman_helper::calc_huffman_codes", "Add", "var(code)", "var(bl_count)[Sub(var(bits), K1).0]"):
+        "canonical code construction over validated lengths <= 15 (C05/X2 code-lengths-validated): codes stay below 2^15",
+    ("huffman_helper::calc_huffman_codes", "Add", "var(next_code)[var(len)]", "K1"):
+        "canonical code construction over validated lengths <= 15: codes stay below 2^15",
+    ("tree_predictor::calc_codetree_freq", "Add", "var(bl_freqs)[var(data)]", "K1"):
+        "counts the entries of one dynamic header: at most 320",
+    ("tree_predictor::calc_codetree_freq", "Add", "var(bl_freqs)[K16]", "K1"): "counts the entries of one dynamic header: at most 320",
+    ("tree_predictor::calc_codetree_freq", "Add", "var(bl_freqs)[K17]", "K1"): "counts the entries of one dynamic header: at most 320",
+    ("tree_predictor::calc_codetree_freq", "Add", "var(bl_freqs)[K18]", "K1"): "counts the entries of one dynamic header: at most 320",
+}
+
+
+def x8(ctx, rep, rule="X8"):
+    """An overflow-checked `+` or `*` on an 8- or 16-bit value is a panic in every build that checks overflow (the test and debug
+    profiles).  On the analysis path each such operation must be bounded — the inferred upper bounds of its operands keep the
+    result inside the type — or be a reviewed row naming what bounds it.  A counter that is stepped once per token of a block is
+    not bounded by anything: blocks have no maximum length."""
+    from ..ub import UB, INF, tymax
+    F = ctx.lib
+    U = UB(F)
+    n = 0
+    seen = {}
+    for dn in _analysis_defs(F):
+        b = F.bodies[dn]
+        short = dn.replace(P, "")
+        for bb in sorted(b.normal_blocks()):
+            t = b.term(bb)
+            if t["k"] != "assert" or "Overflow" not in str(t.get("msg")) or t["ops"][0] not in ("Add", "Mul"):
+                continue
+            l, r = t["ops"][1], t["ops"][2]
+            mx = None
+            for o in (l, r):
+                pl = op_place(o)
+                if pl is not None:
+                    try:
+                        mx = U.place_tymax(b, pl)
+                    except Exception:
+                        mx = None
+                    if mx:
+                        break
+                k = op_const(o)
+                if k and "ty" in k:
+                    mx = tymax(k["ty"])
+            if mx is None or mx > 65535:
+                continue
+            n += 1
+            try:
+                ul, ur = U.operand(b, l, bb), U.operand(b, r, bb)
+            except Exception:
+                ul = ur = INF
+            tot = ul + ur if t["ops"][0] == "Add" else ul * ur
+            dl, dr = flow.describe(b, l, names=True), flow.describe(b, r, names=True)
+            k0 = "%s|%s(%s, %s)" % (short, t["ops"][0], dl[:60], dr[:40])
+            seen[k0] = seen.get(k0, 0) + 1
+            key = k0 + ("" if seen[k0] == 1 else "#%d" % seen[k0])
+            if tot <= mx:
+                rep.add(rule, "narrow-arithmetic-bounded:" + key, True, b.where(bb), "operands at most %s and %s, type holds %s" % (ul, ur, mx))
+                continue
+            row = NARROW_ROWS.get((short, t["ops"][0], dl, dr))
+            rep.add(rule, ("narrow-arithmetic-reviewed:" if row else "narrow-arithmetic-unbounded:") + key, row is not None, b.where(bb),
+                    row or "nothing bounds this %d-bit %s: it overflows (panics where overflow is checked) once the value reaches %d" % (mx.bit_length(), "addition" if t["ops"][0] == "Add" else "multiplication", mx))
+    rep.floor(rule, "narrow-arithmetic-sites", n, 8)
